@@ -106,11 +106,13 @@ class ActRun(busdiff.ImplRun):
         self.now_ms = 0
         lim = dict(limits or {})
         lim["start_timeout"] = svc.start_timeout
+        lim["auth_timeout"] = 2000000000      # the clock jumps: connections that never say Hello must not expire on the way
         if svc.pending is not None:
             lim["pending"] = svc.pending
         self.log_seen = 0
         self.stubs = {}          # pid -> (tag, number) of stubs believed alive; programs are numbered in starting order
         self.nstarted = 0
+        self.eof_unreliable = True
         self.info = []           # per step: programs started [(tag, number)], killed [number], ended (number or None)
         super().__init__(policy, lim, '  <servicedir>%s</servicedir>\n' % d,
                          env_extra={"LD_PRELOAD": SHIM, "VERIF_CLOCK_FILE": self.clock_path})
@@ -178,10 +180,10 @@ class ActRun(busdiff.ImplRun):
                 self.stubs[int(pid)] = (tag, self.nstarted)
                 started.append((tag, self.nstarted)); self.nstarted += 1
                 waiting.discard(int(ppid))
-            # a babysitter that is gone, or has no child left, will never report (exec failed)
+            # a babysitter that is gone will never report (the exec failed, or its program has already ended); one that
+            # is alive is about to fork its program, or the program is about to write its line
             for b in list(waiting):
-                if not self._alive(b) or not self._children(b):
-                    # its stub may have written the line a moment ago
+                if not self._alive(b):
                     waiting.discard(b)
             if not waiting:
                 break
@@ -309,7 +311,7 @@ def model_run(ops, policy, limits, svc, infos=None):
     limits.setdefault("maxmsg", 32 * 1024 * 1024)
     if svc.pending is not None:
         limits["pending"] = svc.pending
-    head = ["act reset " + " ".join("%s=%d" % kv for kv in limits.items() if kv[0] not in ("reply_timeout", "pending_fd_timeout", "start_timeout"))]
+    head = ["act reset " + " ".join("%s=%d" % kv for kv in limits.items() if kv[0] not in ("reply_timeout", "pending_fd_timeout", "start_timeout", "auth_timeout"))]
     head += [l.replace("bus policy", "act policy", 1) for l in policy.to_model()] + svc.model_lines()
     groups = [op_model_lines(op, svc, infos[i] if infos is not None and i < len(infos) else None) for i, op in enumerate(ops)]
     lines = head + [l for g in groups for l in g]
